@@ -18,7 +18,8 @@ Representation choices (none of them observable):
 * numpy dtypes are Boolean flags (`cplx`) on the matrix, the right-hand side, the initial guess and on
   every stored pair; they only matter for the rule "a complex stored vector is not used for a real
   right-hand side unless its contribution is numerically real".
-* the final normalisation `badd /= bnrm; xadd /= bnrm` is omitted (projections are scale invariant).
+* the final normalisation `badd /= bnrm; xadd /= bnrm` multiplies the new pair by `c.scale bnrm²`, an arbitrary
+  non-zero parameter (it needs a square root); `ldas_norm_irrelevant`: no observable depends on it.
 * the inner solver is a parameter `inner A adj b x0` (column-wise); `adj = false` is `trans='N'`,
   `adj = true` is `trans='H'` — the wrapper never calls it with `'T'`.
 
@@ -49,6 +50,9 @@ structure Cfg (α : Type) where
   tol2 : α
   /-- `(1e-10)²` of the "numerically real" test -/
   eps2 : α
+  /-- the normalisation factor `1/bnrm` of a new database pair as a function of `bnrm²` (a square root, hence a
+      parameter); the exact driver uses the constant 1 — no observable depends on it (`ldas_norm_irrelevant`) -/
+  scale : α → α
 
 inductive Err | typeError | attributeError
   deriving DecidableEq, Repr
@@ -218,8 +222,10 @@ def appendOne (c : Cfg α) (M : Mat n α) (d : Fin n → Bool) (rc : Bool) (db :
   let st0 : Vec n α × Vec n α := (memo (maskOff d xnew), memo (maskOff d (M *ᵥ xnew)))
   let n0 := ipSel c d st0.2 st0.2
   let o := orthPair c d db st0
-  if c.lt (c.tol2 * n0) (ipSel c d o.2 o.2) then
-    (db ++ [{ x := o.1, b := o.2, cplx := rc || db.any (·.cplx) }], false)
+  let n1 := ipSel c d o.2 o.2
+  if c.lt (c.tol2 * n0) n1 then
+    let t := c.scale n1                      -- badd /= bnrm; xadd /= bnrm
+    (db ++ [{ x := memo fun i => t * o.1 i, b := memo fun i => t * o.2 i, cplx := rc || db.any (·.cplx) }], false)
   else (db, true)
 
 /-- the loop `for i in range(xnew.shape[-1])` over the failing columns, in order -/
